@@ -168,15 +168,26 @@ theorem first_date_token_decides (ts : List Tok) (hw : ∀ t ∈ ts, wfTok t = t
     have := scan_plain_section [.dateTok s] (by simpa [wfTok] using hs) (by simp [isGeneral]) St.init quiet_init rfl post
     simpa [renderSection, detect, classifySection] using this
 
-/-- the scanner does not panic on any text with at most 255 `[` characters.
-    `_partial`: the full statement "never panics" is false of the code as it is — the `u8` counter `brackets += 1`
-    overflows on the 256th unclosed `[` (ledger D30-b, a C06 matter; `bracket_overflow_witness` below) -/
-theorem scanner_no_panic_partial (s : List Char) (h : s.count '[' ≤ 255) (msg : String) : detect s ≠ .panic msg :=
-  scan_no_panic St.init s (by simpa [St.init] using h) msg
+/-- **scanner_no_panic** (after fix 8b86d6e, ledger D30-b): the scanner panics on no text at all. Until that fix
+    the nesting depth was a `u8` and `brackets += 1` overflowed on the 256th unclosed `[`. -/
+theorem scanner_no_panic (s : List Char) (msg : String) : detect s ≠ .panic msg :=
+  scan_no_panic St.init s msg
 
-/-- D30-b is modelled faithfully: 256 opening brackets make the model panic like the code does -/
-theorem bracket_overflow_witness :
-    (detect (List.replicate 256 '[')).tag = "panic" ∧ (detect (List.replicate 255 '[')).tag = "ok" := by
+/-- `detect` is total: every text gets a classification -/
+theorem scanner_total (s : List Char) : ∃ c, detect s = .ok c := scan_total St.init s
+
+/-- the earlier, weaker form (texts with at most 255 `[`), kept under its name for `Props/C06.lean` -/
+theorem scanner_no_panic_partial (s : List Char) (_h : s.count '[' ≤ 255) (msg : String) : detect s ≠ .panic msg :=
+  scanner_no_panic s msg
+
+/-- deep nesting is read as nesting: 300 `[`, 300 `]`, then `d` is a date format; 256 or 300 unclosed `[` are
+    classified (`Other`: an `h]` at depth 300 closes nothing at depth 1), not a panic; `[h` + 300 balanced pairs + `]`
+    still closes the elapsed unit at depth 1 (the bracket arms leave the `hms` flag alone) -/
+theorem deep_nesting_witness :
+    detect (List.replicate 300 '[' ++ List.replicate 300 ']' ++ ['d']) = .ok .dateTime ∧
+    detect (List.replicate 256 '[') = .ok .other ∧
+    detect (List.replicate 300 '[' ++ ['h', ']']) = .ok .other ∧
+    detect ('[' :: 'h' :: List.replicate 300 '[' ++ List.replicate 300 ']' ++ [']']) = .ok .timeDelta := by
   decide +kernel
 
 /-! ## style tables: `formats[i]` is the class of the format the i-th cell XF refers to
